@@ -1254,7 +1254,7 @@ func runC13(c *core.Ctx) {
 	core.Parallel(workers, workers, func(w int) {
 		m := c.NewModel("pop3")
 		defer m.Close()
-		for i := 0; i < per; i++ {
+		for i := 0; i < per && !c.Enough(); i++ {
 			idx := w*per + i
 			popSession(c, m, c.SubRng(fmt.Sprintf("pop3/%d", idx)), idx)
 		}
